@@ -4,7 +4,7 @@ seeded/_staging/*/{confirm,detect}.json, ledger/*.json and known_findings.json."
 import json, glob, os, re
 root = '/verif'
 rows = []
-for d in sorted(glob.glob(root + '/seeded/_staging/C*-m*') + glob.glob(root + '/seeded/_staging3/C*-r*') + glob.glob(root + '/seeded/_staging4/C*-s*')):
+for d in sorted(glob.glob(root + '/seeded/_staging/C*-m*') + glob.glob(root + '/seeded/_staging3/C*-r*') + glob.glob(root + '/seeded/_staging4/C*-s*') + glob.glob(root + '/seeded/_staging5/C*-t*')):
     name = os.path.basename(d)
     c = json.load(open(d + '/confirm.json')) if os.path.exists(d + '/confirm.json') else {}
     det = json.load(open(d + '/detect.json')) if os.path.exists(d + '/detect.json') else {}
